@@ -1224,8 +1224,8 @@ class Staircase(Pbox):
                 nleft = np.maximum(self.left, other.left)
                 nright = np.maximum(self.right, other.right)
             case "o":
-                nleft = np.maximum(self.left, np.flip(other.right))
-                nright = np.maximum(self.right, np.flip(other.left))
+                nleft = np.maximum(self.left, np.flip(other.left))
+                nright = np.maximum(self.right, np.flip(other.right))
             case "i":
                 nleft = []
                 nright = []
